@@ -7,6 +7,14 @@ open Femio.C13
 #print axioms C13_adjacency_node
 #print axioms nHopAuxM_refines
 #print axioms C13_nhop_reach
+#print axioms C13_nhop_mono
+#print axioms C13_nhop_selfloop_diag
+#print axioms C13_nhop_step
+#print axioms C13_nhop_step_selfloops
+#print axioms C13_nhop_step_noloop_counterexample
+#print axioms C13_memo_history
+#print axioms C13_memo_history_fresh
+#print axioms C13_memo_wrong_key_counterexample
 #print axioms C13_laplacian_rowsum
 #print axioms C13_laplacian_offdiag
 #print axioms C13_laplacian_diag
